@@ -228,7 +228,7 @@ def _worker(job):
         for k, d in check_case(c):
             s.fail(k, c, d)
 
-    H.hyp_run(v1_case() if which == "v1" else v2_case(), body, n, seed)
+    H.hyp_run(v1_case() if which == "v1" else v2_case(), body, n, seed, stats=s)
     return s
 
 
